@@ -140,6 +140,14 @@ def replay_case(case):
             wants = [fr(cc["cap12"]) for cc in case["cands"]]
             if q.shape != (1,) or min(abs(q[0] - w) for w in wants) > 1e-9 * (1 + max(abs(w) for w in wants)):
                 bad.append(("C19.capture-own-domain", where0, wants, q.tolist()))
+            # the same question after OTHER questions on the same signal domain (the uncertainty of the filters is
+            # equalised onto that domain too): the answer is the one of a fresh estimator
+            est2 = dreye.ReceptorEstimator(np.atleast_2d(ys[0]).copy(), domain=ds[0].copy(), filters_uncertainty=np.atleast_2d(ys[0]).copy() * 0.5 + 0.25)
+            est2.uncertainty_capture(np.atleast_2d(ys[1]).copy(), domain=ds[1].copy())
+            q2 = np.asarray(est2.capture(np.atleast_2d(ys[1]).copy(), domain=ds[1].copy()), float).ravel()
+            q3 = np.asarray(est2.capture(np.atleast_2d(ys[1]).copy(), domain=ds[1].copy()), float).ravel()
+            if q2.shape != q.shape or np.max(np.abs(q2 - q)) > 1e-12 * (1 + abs(q[0])) or np.max(np.abs(q3 - q)) > 1e-12 * (1 + abs(q[0])):
+                bad.append(("C19.capture-own-domain", dict(after="uncertainty_capture on the same domain", **where0), q.tolist(), q2.tolist()))
         except Exception as ex:
             bad.append(("C19.no-error", dict(exc=type(ex).__name__, variant="estimator.capture", **where0), None, repr(ex)[:200]))
     return bad
